@@ -44,6 +44,33 @@ def main():
             failures.append(('T00', 'expected refutations %r, got %r\n%s' % (sorted(T00_engine.EXPECTED_REFUTED),
                                                                               sorted(got), out[-1500:])))
         print('T00 engine self-test:', 'ok' if not failures else 'FAILED')
+    # 1a. every sidecar module must import under the repository's interpreter (no z3): replay scripts need them
+    if not args.only or args.only.lower() == 'imports':
+        code = ("import sys, glob, os, importlib, warnings; warnings.simplefilter('ignore'); sys.path.insert(0, %r)\n"
+                "bad = []\n"
+                "for f in sorted(glob.glob(os.path.join(%r, 'contracts', '[CT][0-9][0-9]*.py'))):\n"
+                "    try: importlib.import_module('contracts.' + os.path.basename(f)[:-3])\n"
+                "    except Exception as e: bad.append((f, repr(e)))\n"
+                "print(bad); sys.exit(1 if bad else 0)\n" % (VERIF, VERIF))
+        p = subprocess.run(['/venv/bin/python', '-W', 'ignore', '-c', code], capture_output=True, text=True,
+                           env=dict(os.environ, PYTHONPATH=os.path.join(REPO, 'src')))
+        print('sidecar modules import without z3 (replay side):', 'ok' if p.returncode == 0 else 'FAILED')
+        if p.returncode != 0:
+            failures.append(('imports', (p.stdout + p.stderr)[-1500:]))
+    # 1b. models and interpreter against CPython
+    if not args.only:
+        p = subprocess.run([sys.executable, '-m', 'pyvc.modelcheck', '3'], cwd=VERIF, capture_output=True, text=True)
+        print(p.stdout.strip().splitlines()[0] if p.stdout.strip() else p.stderr[-300:])
+        if p.returncode != 0:
+            failures.append(('modelcheck', p.stdout[-1500:]))
+        import glob
+        props = sorted({os.path.basename(f)[:3] for f in glob.glob(os.path.join(VERIF, 'contracts', 'C[0-9][0-9]*.py'))})
+        for pr in props:
+            p = subprocess.run([sys.executable, '-m', 'pyvc.crosscheck', pr], cwd=VERIF, capture_output=True, text=True)
+            line = [l for l in p.stdout.splitlines() if l.startswith('interpreter cross-check')]
+            print(line[0] if line else p.stderr[-300:])
+            if p.returncode != 0:
+                failures.append(('crosscheck ' + pr, p.stdout[-1500:]))
     # 2. mutants
     sys.path.insert(0, os.path.join(VERIF, 'selftest'))
     import mutants
@@ -70,6 +97,34 @@ def main():
                 print('%-40s %s' % (mid, 'caught by ' + hit[0] if ok else 'MISSED (exit %d)' % rc))
                 if not ok:
                     failures.append((mid, out[-1500:]))
+        finally:
+            shutil.rmtree(tmp, ignore_errors=True)
+    # 3. changes under which the property still holds: no alarm
+    benign = [b for b in getattr(mutants, 'BENIGN', []) if not args.only or args.only.lower() in b[0].lower()
+              or args.only.upper() == b[1]]
+    if benign:
+        tmp = tempfile.mkdtemp(prefix='pyvc-selftest-')
+        try:
+            shutil.copytree(os.path.join(REPO, 'src'), os.path.join(tmp, 'src'))
+            for (bid, prop, rel, edits) in benign:
+                path = os.path.join(tmp, 'src', rel)
+                orig = open(path).read()
+                text = orig
+                missing = [old for old, new in edits if old not in text]
+                if missing:
+                    failures.append((bid, 'edit site not found in %s (the code has changed: update the entry)' % rel))
+                    print('%-40s SITE-NOT-FOUND' % bid)
+                    continue
+                for old, new in edits:
+                    text = text.replace(old, new, 1)
+                open(path, 'w').write(text)
+                try:
+                    rc, out = run_check(prop, repo=tmp, jobs=args.jobs)
+                finally:
+                    open(path, 'w').write(orig)
+                print('%-40s %s' % (bid, 'no alarm' if rc == 0 else 'ALARM (exit %d)' % rc))
+                if rc != 0:
+                    failures.append((bid, out[-1500:]))
         finally:
             shutil.rmtree(tmp, ignore_errors=True)
     for mid, why in failures:
